@@ -27,7 +27,11 @@ RULE = ("seeded random declaration trees (depth <= 3: arguments, dotted groups, 
         "channels parse_object / parse_string / argv --cfg / environment APP_CFG (quick: channel drawn per case, thorough: all four), "
         "and again WITHOUT merging defaults (parse_object / parse_string with defaults=False: no subcommand section is created for "
         "the parse, extra sections are only dropped when more than one is given); for parsers with subcommands also: the subcommand "
-        "named but its section omitted / empty / only another subcommand's section given. "
+        "named but its section omitted / empty / only another subcommand's section given. Two more dimensions that must not "
+        "change the answer: on the object channel the nested mappings are dict / collections.OrderedDict / collections.defaultdict "
+        "instances (drawn per case); 30% of the defaults=True cases on object / string / --cfg build the parser with "
+        "default_env=True and run with decoy environment variables APP_<NAME> for the names of nested fields that are not "
+        "top-level arguments. "
         "Non-trivial = the configuration was mutated; distinct = distinct (parser, configuration, channel).")
 TRUSTED = [
     "Coq 8.16.1 kernel + vm_compute",
@@ -51,6 +55,10 @@ ASSUMPTIONS = [
     "parser's history, not predicted (the cycle rule is property C16's); what is modelled and proved is the effect on the "
     "required keys: a rejected attempt changes nothing, an accepted link exempts exactly its target. Links applied on parse "
     "(value propagation, target not settable) are property C15's and are not generated",
+    "mapping types on the object channel: dict, OrderedDict, defaultdict; instances of a user-defined dict subclass are not "
+    "generated (recreate_branches empties them on the current tree: defect dict-subclass-content-dropped, fix proposed, see notes)",
+    "default_env=True is exercised only with decoy variables that are not the variable of any argument of the parser (setting "
+    "real arguments through individual environment variables is not modelled)",
     "dict_kwargs (documented escape for unresolved **kwargs) is treated as declared and opaque; never generated",
     "for parsers with a link history only single mutations are generated (one error at a time): an accepted link removes its "
     "target from the defaults, which changes the key order of the merged namespace and thereby WHICH of two simultaneous errors "
@@ -465,6 +473,57 @@ def generate(rng, tier):
                     nd = []
                 for ch in nd:
                     cases.append({"parser": p, "cfg": c, "channel": ch, "label": label, "defaults": False})
+    return decorate(rng, cases)
+
+
+# a user-defined `class MyDict(dict)` is NOT generated: on the current tree recreate_branches empties such instances (they
+# have an instance __dict__), see notes/C06.md "dict-subclass-content-dropped" and fixes/C06-dict-subclass-content-dropped.patch
+CONTAINERS = ["dict", "dict", "odict", "ddict"]
+
+
+def nested_field_names(p):
+    """names of fields below the top level of the parser (dataclass fields, class parameters, list-item fields, dotted group
+    members, subcommand arguments), minus the names of the parser's own top-level arguments"""
+    out = set()
+
+    def walk(fs, depth):
+        for name, d in fs:
+            if depth > 0:
+                out.add(name)
+            k = d[0]
+            if k == "group":
+                walk(d[1], depth + 1)
+            elif k == "data":
+                walk(d[2], depth + 1)
+            elif k == "list":
+                walk(d[1], depth + 1)
+            elif k == "class":
+                for _, ps in d[2]:
+                    walk(ps, depth + 1)
+
+    walk(p["args"], 0)
+    if p["sub"]:
+        for _, sargs in p["sub"]["map"]:
+            walk(sargs, 1)
+    top = set(n for n, _ in p["args"])
+    if p["sub"]:
+        top |= {p["sub"]["dest"]} | set(n for n, _ in p["sub"]["map"])
+    return sorted(out - top)
+
+
+def decorate(rng, cases):
+    """two more dimensions of HOW a configuration reaches the parser, neither of which may change the answer:
+    - object channel: the nested mappings are OrderedDict / defaultdict / a user dict subclass instead of dict;
+    - the parser is built with default_env=True and the process environment holds decoy variables APP_<NAME> for the names
+      of nested fields (none of them the variable of an argument of this parser)"""
+    for c in cases:
+        if c["channel"] == "object":
+            c["container"] = rng.choice(CONTAINERS)
+        if c.get("defaults", True) and c["channel"] in ("object", "string", "argvcfg") and rng.random() < 0.3:
+            names = nested_field_names(c["parser"])
+            if names:
+                c["env"] = True
+                c["decoys"] = dict(("APP_" + n.upper(), "7") for n in names)
     return cases
 
 
@@ -564,7 +623,8 @@ def term(case, obs):
 def nontrivial_key(case, obs):
     if case.get("label") == "valid":
         return None
-    return json.dumps([case["parser"], case["cfg"], case["channel"], case.get("defaults", True)], sort_keys=True)
+    return json.dumps([case["parser"], case["cfg"], case["channel"], case.get("defaults", True), case.get("container"),
+                       bool(case.get("env"))], sort_keys=True)
 
 
 def category(case, obs):
@@ -574,6 +634,7 @@ def category(case, obs):
 
 def describe(case, obs):
     return {"parser_declarations": case["parser"], "configuration": case["cfg"], "channel": case["channel"], "defaults": case.get("defaults", True),
+            "object_mapping_type": case.get("container", "dict"), "default_env_with_decoy_variables": case.get("decoys") or None,
             "mutation": case.get("label"), "real_parser_answer": obs}
 
 
